@@ -407,7 +407,13 @@ func processSubscribe(c *Client, p packets.ControlPacket) {
 	suback.MessageID = packet.MessageID
 	suback.ReturnCodes = make([]byte, len(packet.Topics))
 	for i := range packet.Topics {
-		suback.ReturnCodes[i] = packet.Qos
+		// the granted QoS of each filter is the requested one, at most QoS1
+		// (packet.Qos is the QoS of the SUBSCRIBE packet itself, always 1).
+		qos := packet.Qoss[i]
+		if qos > QoS1 {
+			qos = QoS1
+		}
+		suback.ReturnCodes[i] = qos
 	}
 	c.writePacket(suback)
 }
